@@ -216,7 +216,7 @@ def _r1(ctx):
         (ctx.unrec if outer else ctx.missing)("R1", f"{fn}:element-loop", (PHYS, 0), f"expected one loop over network.elements, found {len(outer)}")
         return
     o = outer[0]
-    ctx.check(o[2] == ("attr", ("name", "network"), "elements") and o[7] is None, "R1", f"{fn}:element-loop", (PHYS, o[5]),
+    ctx.check(_unlist(o[2]) == ("attr", ("name", "network"), "elements") and o[7] is None, "R1", f"{fn}:element-loop", (PHYS, o[5]),
               "one branch per element of the unfiltered network.elements", found=J.show(o[2]))
     evar = o[1]
     # bindings made before the loop (function scope) stay visible inside it
@@ -300,6 +300,7 @@ def _r1(ctx):
     else:
         ctx.unrec("R1", f"{fn}:species-loop", (PHYS, it[5]), f"loop over {J.show(itx)} binding {J.show(it[1])}: shape not understood")
         return
+    base = _unlist(base)
     if base != SPECIES_SEQ and J.path(J.unfilter(base)[0]) != "network.species":
         ctx.unrec("R1", f"{fn}:species-loop", (PHYS, it[5]), f"the sum ranges over {J.show(base)}, not recognisably the species list")
         return
@@ -374,6 +375,13 @@ def _about(e, names, plain_filters=False) -> bool:
         if x[0] in ("macrocall", "unknown", "test") and x[0] != "test":
             return False
     return True
+
+
+def _unlist(e):
+    """`S | list` visits the items of S in order"""
+    while isinstance(e, tuple) and e and e[0] == "filter" and e[1] == "list" and not e[3] and not e[4]:
+        e = e[2]
+    return e
 
 
 def _key_canon(e):
